@@ -333,6 +333,42 @@ def rule_always_validated(ctx: Ctx) -> None:
     ctx.floor("8-always-validated", n, 1)
 
 
+def rule_mutators_revalidate(ctx: Ctx) -> None:
+    """Every Pipeline method that changes functions, names or defaults ends in self._validate() (which runs the type check of
+    every edge) on EVERY normal path: a condition in front of it ("nothing was renamed") misses the updates that change edges
+    without matching the condition - update_renames({}, overwrite=True) drops all renames and re-connects parameters to outputs."""
+    from ..cfg import ENTRY, EXIT
+
+    cls = ctx.prog.cls("pipefunc._pipeline._base.Pipeline")
+    n = 0
+    for m in cls.methods.values():
+        if m.name.startswith("__") or m.name == "_validate":
+            continue
+        cfg = ctx.cfg(m)
+        vs = set(cfg.nodes(lambda s_: not isinstance(s_, (ast.If, ast.For, ast.While, ast.With, ast.Try, ast.FunctionDef)) and any(isinstance(x, ast.Call) and norm(x.func) == "self._validate" for x in ast.walk(s_))))
+        if not vs:
+            continue
+        n += 1
+        ok = cfg.must_pass(ENTRY, EXIT, vs, normal_only=True)
+        wp = None if ok else cfg.witness_path(ENTRY, EXIT, vs)
+        # a violation needs a path that CHANGES something and still skips the validation (an early return before any change is not one)
+        def mutates(s_: ast.AST) -> bool:
+            for x in ast.walk(s_) if not isinstance(s_, (ast.If, ast.For, ast.While, ast.With, ast.Try)) else []:
+                if isinstance(x, ast.Call) and isinstance(x.func, ast.Attribute) and (x.func.attr.startswith(("update_", "add_")) or x.func.attr in ("append", "remove", "pop", "clear", "insert", "extend", "drop", "replace", "_clear_internal_cache")) and norm(x.func) != "self._validate":
+                    return True
+                if isinstance(x, (ast.Assign, ast.AugAssign)) and any(isinstance(t, (ast.Attribute, ast.Subscript)) for t in (x.targets if isinstance(x, ast.Assign) else [x.target])):
+                    return True
+            return False
+        before = cfg.reachable_from(ENTRY, without=vs, normal_only=True)
+        skipping = [nd for nd in cfg.nodes(mutates) if nd in before and EXIT in cfg.reachable_from(nd, without=vs, normal_only=True)]
+        verdict = True if ok else (False if skipping else None)
+        ctx.add("8-always-validated", m, cfg.stmt[skipping[0]] if skipping else cfg.stmt[sorted(vs)[0]], verdict, f"Pipeline.{m.name} re-validates on every normal path" if ok else
+                f"UNDECIDED: Pipeline.{m.name} has a path without self._validate(), on which no change was recognised" if verdict is None else
+                f"Pipeline.{m.name} can return without self._validate(): an update on that path that changes an edge (e.g. resetting all renames with an empty dict and overwrite=True) is never type-checked", key=f"revalidates {m.name}",
+                path=cfg.describe(wp, m.module.relpath) if wp else None)
+    ctx.floor("8-always-validated.mutators", n, 6)
+
+
 def rule_total_predicate(ctx: Ctx) -> None:
     """is_type_compatible answers True or False for EVERY pair of annotations; it is called on whatever the user wrote, and an
     exception out of it surfaces as a construction failure of a valid pipeline.  The comparison functions contain no raise today;
@@ -381,7 +417,7 @@ def rule_annotations_fresh(ctx: Ctx) -> None:
 
 
 def check(ctx: Ctx) -> None:
-    for rule in (rule_flag, rule_typeerror, rule_unions, rule_reduction, rule_extraction, rule_wildcards, rule_readonly, rule_always_validated, rule_annotations_fresh, rule_total_predicate):
+    for rule in (rule_flag, rule_typeerror, rule_unions, rule_reduction, rule_extraction, rule_wildcards, rule_readonly, rule_always_validated, rule_mutators_revalidate, rule_annotations_fresh, rule_total_predicate):
         ctx.run(rule)
 
 
